@@ -1,0 +1,46 @@
+//go:build verif
+
+// Contracts for the deductive checks in /verif (comment-only). Syntax: /verif/DESIGN.md 2.3.
+
+package override
+
+//@ func override
+//@   nopanic[C01,C04]
+//@   ensures[C04] err == nil && result == other
+
+//@ func copyMap
+//@   nopanic[C01,C04]
+//@   ensures[C04] result != nil && fresh(result)
+//@   ensures[C04] forall k string :: has(result, k) <==> has(m, k)
+//@   ensures[C04] forall k string :: has(m, k) ==> result[k] == m[k]
+//@   loop 1
+//@     invariant forall k string :: has(c, k) <==> seen(k)
+//@     invariant forall k string :: seen(k) ==> has(m, k) && c[k] == m[k]
+
+//@ func mergeMappings
+//@   nopanic[C01,C04]
+//@   requires mapping != nil
+//@   ensures[C04] err == nil ==> result.0 == mapping
+//@   ensures[C04] err == nil && mapping != other ==> forall k string :: !old(has(other, k)) ==> (has(mapping, k) <==> old(has(mapping, k)))
+//@   ensures[C04] err == nil && mapping != other ==> forall k string :: !old(has(other, k)) && old(has(mapping, k)) ==> mapping[k] == old(mapping[k])
+//@   ensures[C04] err == nil && mapping != other ==> forall k string :: old(has(other, k)) ==> has(mapping, k)
+//@   ensures[C04] err == nil && mapping != other ==> forall k string :: old(has(other, k)) && (!old(has(mapping, k)) || hasprefix(k, "x-")) ==> mapping[k] == old(other[k])
+//@   loop 1
+//@     invariant mapping != nil
+//@     invariant mapping != other ==> forall k string :: has(other, k) <==> old(has(other, k))
+//@     invariant mapping != other ==> forall k string :: has(other, k) ==> other[k] == old(other[k])
+//@     invariant mapping != other ==> forall k string :: !old(has(other, k)) ==> (has(mapping, k) <==> old(has(mapping, k)))
+//@     invariant mapping != other ==> forall k string :: !old(has(other, k)) && old(has(mapping, k)) ==> mapping[k] == old(mapping[k])
+//@     invariant mapping != other ==> forall k string :: !seen(k) ==> (has(mapping, k) <==> old(has(mapping, k)))
+//@     invariant mapping != other ==> forall k string :: !seen(k) && old(has(mapping, k)) ==> mapping[k] == old(mapping[k])
+//@     invariant mapping != other ==> forall k string :: seen(k) ==> has(mapping, k)
+//@     invariant mapping != other ==> forall k string :: seen(k) && (!old(has(mapping, k)) || hasprefix(k, "x-")) ==> mapping[k] == old(other[k])
+
+//@ func mergeYaml
+//@   nopanic[C01,C04]
+//@   assigns below(e), below(o)
+//@   ensures[C04] pathmatch(p, "services.*.command") ==> err == nil && result == o
+//@   ensures[C04] pathmatch(p, "services.*.entrypoint") ==> err == nil && result == o
+//@   ensures[C04] pathmatch(p, "services.*.healthcheck.test") ==> err == nil && result == o
+//@   loop 1
+//@     invariant[C04] forall k string :: seen(k) ==> !pathmatch(p, k)
